@@ -259,8 +259,12 @@ namespace
 
 	void SkipValueImpl(std::string_view inputData, size_t& pos)
 	{
-		if (pos < inputData.size())
+		// Iterative implementation (the nesting depth of the skipped value is controlled by the input data)
+		for (uint64_t remainingValues = 1; remainingValues != 0; --remainingValues)
 		{
+			if (pos >= inputData.size()) {
+				throw ParsingException("No more values to read", 0, pos);
+			}
 			const auto& byteCodeInfo = ByteCodeTable[static_cast<uint_fast8_t>(inputData[pos++])];
 
 			size_t size = byteCodeInfo.DataSize;
@@ -281,32 +285,19 @@ namespace
 				extSize = 0;
 			}
 
-			if (pos + size <= inputData.size())
-			{
-				pos += size;
-				if (extSize)
-				{
-					if (byteCodeInfo.Type == ValueType::Map)
-					{
-						for (uint32_t i = 0; i < extSize; ++i)
-						{
-							SkipValueImpl(inputData, pos);
-							SkipValueImpl(inputData, pos);
-						}
-					}
-					else if (byteCodeInfo.Type == ValueType::Array)
-					{
-						for (uint32_t i = 0; i < extSize; ++i)
-						{
-							SkipValueImpl(inputData, pos);
-						}
-					}
-				}
-				return;
+			if (pos + size > inputData.size()) {
+				throw ParsingException("Unexpected end of input archive", 0, pos);
 			}
-			throw ParsingException("Unexpected end of input archive", 0, pos);
+			pos += size;
+
+			// Nested values will be skipped on the next iterations
+			if (byteCodeInfo.Type == ValueType::Map) {
+				remainingValues += static_cast<uint64_t>(extSize) * 2;
+			}
+			else if (byteCodeInfo.Type == ValueType::Array) {
+				remainingValues += extSize;
+			}
 		}
-		throw ParsingException("No more values to read", 0, pos);
 	}
 
 	void HandleMismatchedTypesPolicy(std::string_view inputData, size_t& pos, ValueType actualType, MismatchedTypesPolicy mismatchedTypesPolicy)
@@ -873,8 +864,13 @@ namespace
 
 	void SkipValueImpl(Detail::CBinaryStreamReader& binaryStreamReader)
 	{
-		if (const auto byteCode = binaryStreamReader.ReadByte())
+		// Iterative implementation (the nesting depth of the skipped value is controlled by the input data)
+		for (uint64_t remainingValues = 1; remainingValues != 0; --remainingValues)
 		{
+			const auto byteCode = binaryStreamReader.ReadByte();
+			if (!byteCode) {
+				throw ParsingException("No more values to read", 0, binaryStreamReader.GetPosition());
+			}
 			const auto& byteCodeInfo = ByteCodeTable[static_cast<uint_fast8_t>(*byteCode)];
 
 			size_t size = byteCodeInfo.DataSize;
@@ -894,31 +890,18 @@ namespace
 				extSize = 0;
 			}
 
-			if (size == 0 || binaryStreamReader.SetPosition(binaryStreamReader.GetPosition() + size))
-			{
-				if (extSize)
-				{
-					if (byteCodeInfo.Type == ValueType::Map)
-					{
-						for (uint32_t i = 0; i < extSize; ++i)
-						{
-							SkipValueImpl(binaryStreamReader);
-							SkipValueImpl(binaryStreamReader);
-						}
-					}
-					else if (byteCodeInfo.Type == ValueType::Array)
-					{
-						for (uint32_t i = 0; i < extSize; ++i)
-						{
-							SkipValueImpl(binaryStreamReader);
-						}
-					}
-				}
-				return;
+			if (size != 0 && !binaryStreamReader.SetPosition(binaryStreamReader.GetPosition() + size)) {
+				throw ParsingException("Unexpected end of input archive", 0, binaryStreamReader.GetPosition());
 			}
-			throw ParsingException("Unexpected end of input archive", 0, binaryStreamReader.GetPosition());
+
+			// Nested values will be skipped on the next iterations
+			if (byteCodeInfo.Type == ValueType::Map) {
+				remainingValues += static_cast<uint64_t>(extSize) * 2;
+			}
+			else if (byteCodeInfo.Type == ValueType::Array) {
+				remainingValues += extSize;
+			}
 		}
-		throw ParsingException("No more values to read", 0, binaryStreamReader.GetPosition());
 	}
 
 	void HandleMismatchedTypesPolicy(Detail::CBinaryStreamReader& binaryStreamReader, ValueType actualType, MismatchedTypesPolicy mismatchedTypesPolicy)
